@@ -104,11 +104,60 @@ Proof.
   - assert (a = Z.pos p) by (subst a; reflexivity). nia.
   - assert (a = Z.pos p) by (subst a; reflexivity). nia.
 Qed.
+(* ---------- the double of a decimal text, rounded (what parse_int computes) ---------- *)
+Lemma binade_some fuel : forall j0 n4 d j, binade fuel j0 n4 d = Some j -> j0 <= j < j0 + Z.of_nat fuel.
+Proof.
+  induction fuel as [|f IH]; intros j0 n4 d j; cbn [binade]; [discriminate|].
+  destruct (n4 <? 2 ^ (j0 + 1) * d).
+  - intros [= <-]. lia.
+  - intros H. apply IH in H. lia.
+Qed.
+Lemma binade_none fuel : forall j0 n4 d, 0 < d -> 0 <= j0 -> 0 <= n4 ->
+  binade fuel j0 n4 d = None -> fuel <> O -> 2 ^ (j0 + Z.of_nat fuel) * d <= n4.
+Proof.
+  induction fuel as [|f IH]; intros j0 n4 d Hd Hj Hn; cbn [binade]; [congruence|].
+  destruct (Z.ltb_spec n4 (2 ^ (j0 + 1) * d)) as [L|L]; [discriminate|].
+  intros H _. destruct f as [|f'].
+  - replace (j0 + Z.of_nat 1) with (j0 + 1) by lia. exact L.
+  - specialize (IH (j0 + 1) n4 d Hd ltac:(lia) Hn H ltac:(discriminate)).
+    replace (j0 + Z.of_nat (S (S f'))) with (j0 + 1 + Z.of_nat (S f')) by lia. exact IH.
+Qed.
+
+Lemma f64_round_abs_exact a d : 0 <= a < 2 ^ 33 -> 0 < d -> f64_round_abs (a * d) d = a.
+Proof.
+  intros Ha Hd. unfold f64_round_abs.
+  destruct (Z.ltb_spec (4 * (a * d)) d) as [L|L]; [nia|].
+  assert (Ha1 : 1 <= a) by nia.
+  destruct (binade 35 0 (4 * (a * d)) d) as [j|] eqn:E.
+  - apply binade_some in E. cbv zeta.
+    set (s := 54 - j). assert (Hs : 0 < s) by (subst s; lia).
+    assert (Hp : 0 < 2 ^ s) by (apply Z.pow_pos_nonneg; lia).
+    unfold rne_div.
+    replace (a * d * 2 ^ s) with (a * 2 ^ s * d) by ring.
+    rewrite Z.div_mul, Z.mod_mul by lia. rewrite Z.mul_0_r.
+    replace (0 <? d) with true by (symmetry; apply Z.ltb_lt; lia).
+    replace (2 ^ (s + 1)) with (2 * 2 ^ s) by (rewrite Z.pow_add_r by lia; ring).
+    replace (2 * (a * 2 ^ s) + 2 ^ s) with (a * (2 * 2 ^ s) + 2 ^ s) by ring.
+    rewrite Z.div_add_l by lia. rewrite Z.div_small by lia. lia.
+  - exfalso. apply binade_none in E; try lia.
+    change (2 ^ (0 + Z.of_nat 35)) with (2 ^ 35) in E.
+    assert (2 ^ 35 = 4 * 2 ^ 33) by reflexivity. nia.
+Qed.
+
+Lemma f64_round_exact z k : Z.abs z < 2 ^ 33 -> f64_round (z * 10 ^ Z.of_nat k) k = z.
+Proof.
+  intros Hz. unfold f64_round. set (d := 10 ^ Z.of_nat k).
+  assert (Hd : 0 < d) by (apply Z.pow_pos_nonneg; lia).
+  rewrite Z.abs_mul, (Z.abs_eq d) by lia.
+  rewrite f64_round_abs_exact by lia.
+  rewrite Z.sgn_mul, (Z.sgn_pos d) by lia. destruct z; cbn; lia.
+Qed.
 Lemma parse_int_num_tok k z : i32 z -> parse_int (num_tok k z) = Ok z.
 Proof.
   intros H. destruct k as [|k]; cbn [num_tok parse_int].
   - now rewrite clamp_id.
-  - now rewrite round_exact, clamp_id.
+  - rewrite f64_round_exact by (unfold i32, i32_min, i32_max in H; change (2 ^ 33) with 8589934592; lia).
+    now rewrite clamp_id.
 Qed.
 
 (* ---------- take_parse / skipn ---------- *)
@@ -318,7 +367,7 @@ Qed.
 Definition req_coords (rs : list request) : list coord := flat_map (fun r => [nxy (rq_p r); nxy (rq_d r)]) rs.
 
 Lemma lilim_build_spec m rs :
-  (forall r, In r rs -> 0 < rq_q r /\
+  (forall r, In r rs -> 0 < rq_q r <= i32_max /\
                         alookup (n_id (rq_p r)) m = Some (pickup_line r) /\
                         alookup (n_id (rq_d r)) m = Some (delivery_line r)) ->
   forall ci idx rest,
@@ -331,19 +380,27 @@ Lemma lilim_build_spec m rs :
 Proof.
   induction rs as [|r rs IH]; intros Hm ci idx rest; [reflexivity|].
   cbn [map lilim_build]. destruct (Hm r (or_introl eq_refl)) as (Hq & -> & ->).
-  unfold lilim_single, lilim_dimens. cbn [fst snd].
-  unfold pickup_line at 1 2 3 4 5. cbn [l_x l_y l_id l_dem].
-  destruct (collect ci (n_x (rq_p r), n_y (rq_p r))) as [ci1 lp] eqn:E1.
-  unfold delivery_line at 1 2 3 4 5. cbn [l_x l_y l_id l_dem].
-  destruct (collect ci1 (n_x (rq_d r), n_y (rq_d r))) as [ci2 ld] eqn:E2.
+  assert (Sp : forall ci0, lilim_single ci0 (pickup_line r) =
+            let '(ci', loc) := collect ci0 (nxy (rq_p r)) in
+            Ok (ci', mkSingle (Some (n_id (rq_p r))) (Some (0, rq_q r, 0, 0)) loc
+                              (n_service (rq_p r)) (n_start (rq_p r)) (Some (n_end (rq_p r))))).
+  { intros ci0. unfold lilim_single, lilim_dimens, pickup_line, nxy. cbn [l_dem l_x l_y l_id l_service l_start l_end fst snd].
+    replace (rq_q r =? i32_min) with false by (symmetry; apply Z.eqb_neq; unfold i32_min; lia).
+    replace (0 <? rq_q r) with true by (symmetry; apply Z.ltb_lt; lia). reflexivity. }
+  assert (Sd : forall ci0, lilim_single ci0 (delivery_line r) =
+            let '(ci', loc) := collect ci0 (nxy (rq_d r)) in
+            Ok (ci', mkSingle (Some (n_id (rq_d r))) (Some (0, 0, 0, rq_q r)) loc
+                              (n_service (rq_d r)) (n_start (rq_d r)) (Some (n_end (rq_d r))))).
+  { intros ci0. unfold lilim_single, lilim_dimens, delivery_line, nxy. cbn [l_dem l_x l_y l_id l_service l_start l_end fst snd].
+    replace (- rq_q r =? i32_min) with false by (symmetry; apply Z.eqb_neq; unfold i32_min, i32_max in *; lia).
+    replace (0 <? - rq_q r) with false by (symmetry; apply Z.ltb_ge; lia).
+    replace (Z.abs (- rq_q r)) with (rq_q r) by lia. reflexivity. }
+  rewrite Sp. destruct (collect ci (nxy (rq_p r))) as [ci1 lp] eqn:E1. cbn [bind].
+  rewrite Sd. destruct (collect ci1 (nxy (rq_d r))) as [ci2 ld] eqn:E2. cbn [bind].
   destruct (collect_eq _ _ (nxy (rq_d r) :: req_coords rs ++ rest) _ _ E1) as [-> ->].
   destruct (collect_eq _ _ (req_coords rs ++ rest) _ _ E2) as [-> ->].
   rewrite (IH (fun r' H' => Hm r' (or_intror H')) _ (idx + 1) rest). cbn [bind].
-  cbn [number_from map fst snd req_coords flat_map app fold_left]. unfold lil_single, nxy.
-  unfold pickup_line, delivery_line. cbn [l_service l_start l_end l_dem l_id l_x l_y].
-  replace (0 <? rq_q r) with true by (symmetry; apply Z.ltb_lt; lia).
-  replace (0 <? - rq_q r) with false by (symmetry; apply Z.ltb_ge; lia).
-  replace (Z.abs (- rq_q r)) with (rq_q r) by lia. reflexivity.
+  cbn [number_from map fst snd req_coords flat_map app fold_left]. unfold lil_single. reflexivity.
 Qed.
 
 (* any arrangement of the node lines in which the pickups appear in request order *)
@@ -383,7 +440,10 @@ Proof.
   - cbn [bind]. rewrite app_nil_r. unfold expected_lilim. cbv zeta. fold d. unfold all_coords, req_coords. cbn [fold_left].
     rewrite as_i32_id by (apply nat32_i32, Hc). reflexivity.
   - intros r Hr. destruct (Hin r Hr) as [Hp Hd]. unfold lilim_map.
-    split; [rewrite Forall_forall in Hqs; exact (Hqs r Hr)|].
+    split.
+    { split; [rewrite Forall_forall in Hqs; exact (Hqs r Hr)|].
+      rewrite Forall_forall in Hrows. apply in_map_iff in Hp. destruct Hp as (row & Erow & Hrow).
+      destruct (Hrows row Hrow) as ((_ & _ & _ & Hdm & _) & _). rewrite Erow in Hdm. unfold i32, pickup_line in Hdm. cbn [l_dem] in Hdm. lia. }
     split; apply alookup_nodup; try (rewrite map_map; cbn [fst]; exact Hnd).
     + change (n_id (rq_p r)) with (l_id (pickup_line r)).
       apply (in_map (fun c => (l_id c, c))). exact Hp.
@@ -455,7 +515,7 @@ Qed.
 Definition tsp_cm (nodes : list tnode) : list (Z * coord) := map (fun n => (t_id n, txy n)) nodes.
 Definition tsp_dm (nodes : list tnode) : list (Z * Z) := map (fun n => (t_id n, t_dem n)) nodes.
 
-Lemma tsp_jobs_spec nodes depot : NoDup (map t_id nodes) ->
+Lemma tsp_jobs_spec nodes depot : NoDup (map t_id nodes) -> (forall n, In n nodes -> t_id n <> i32_min) ->
   forall pn, incl pn nodes -> forall ci rest,
   let custs := filter (fun n => negb (t_id n =? depot)) pn in
   tsp_jobs ci depot (map t_id pn) (tsp_cm nodes) (tsp_dm nodes) =
@@ -463,7 +523,7 @@ Lemma tsp_jobs_spec nodes depot : NoDup (map t_id nodes) ->
                                (loc_of (fold_left add_coord (map txy custs ++ rest) ci) (txy n)) 0 0 None)) custs,
       fold_left add_coord (map txy custs) ci).
 Proof.
-  intros Hnd. induction pn as [|n pn IH]; intros Hincl ci rest; [reflexivity|].
+  intros Hnd Hmin. induction pn as [|n pn IH]; intros Hincl ci rest; [reflexivity|].
   cbn zeta. cbn [map tsp_jobs filter].
   assert (Hn : In n nodes) by (apply Hincl; now left).
   assert (Hpn : incl pn nodes) by (intros x Hx; apply Hincl; now right).
@@ -476,6 +536,7 @@ Proof.
     { apply alookup_nodup; [unfold tsp_dm; rewrite map_map; exact Hnd|].
       apply (in_map (fun n => (t_id n, t_dem n))). exact Hn. }
     rewrite Ec, Edm.
+    replace (t_id n =? i32_min) with false by (symmetry; apply Z.eqb_neq, Hmin; exact Hn).
     destruct (collect ci (txy n)) as [ci' loc] eqn:E.
     destruct (collect_eq _ _ (map txy (filter (fun n => negb (t_id n =? depot)) pn) ++ rest) _ _ E) as [-> ->].
     specialize (IH Hpn (add_coord ci (txy n)) rest). cbn zeta in IH. rewrite IH. cbn [bind map app fold_left].
@@ -508,20 +569,21 @@ Proof.
   replace (Z.of_nat (List.length (ti_nodes I)) <? 0) with false by (symmetry; apply Z.ltb_ge; lia).
   rewrite Nat2Z.id.
   rewrite (read_n_print coord_line _ (fun n => (t_id n, txy n))).
-  2:{ intros n Hn. rewrite Forall_forall in Hwf. destruct (Hwf n Hn) as (W1 & W2 & W3 & W4).
+  2:{ intros n Hn. rewrite Forall_forall in Hwf. destruct (Hwf n Hn) as ((W1 & W1') & W2 & W3 & W4).
       unfold coord_line. rewrite !parse_int_num_tok by assumption. cbn [bind parse_int].
       now rewrite clamp_id. }
   cbn [bind next_line]. rewrite expect_word_ok. cbn [bind].
   rewrite (read_n_print demand_line _ (fun n => (t_id n, t_dem n))).
-  2:{ intros n Hn. rewrite Forall_forall in Hwf. destruct (Hwf n Hn) as (W1 & W2 & W3 & W4).
+  2:{ intros n Hn. rewrite Forall_forall in Hwf. destruct (Hwf n Hn) as ((W1 & W1') & W2 & W3 & W4).
       unfold demand_line. cbn [parse_int bind]. now rewrite !clamp_id. }
   cbn [bind next_line]. rewrite expect_word_ok. cbn [bind parse_int_line parse_int].
   apply in_map_iff in Hdep. destruct Hdep as (dn & Edn & Hdn).
-  assert (Wd : tnode_wf dn) by (rewrite Forall_forall in Hwf; auto). destruct Wd as (Wd1 & _).
+  assert (Wd : tnode_wf dn) by (rewrite Forall_forall in Hwf; auto). destruct Wd as ((Wd1 & _) & _).
   rewrite clamp_id by (rewrite <- Edn; exact Wd1). cbn [bind]. rewrite expect_word_ok. cbn [bind].
   fold (tsp_cm (ti_nodes I)). fold (tsp_dm (ti_nodes I)).
-  rewrite (tsp_jobs_spec _ _ Hnd pn) with (rest := [depot_xy I])
-    by (intros x Hx; eapply Permutation_in; eassumption).
+  rewrite (tsp_jobs_spec _ _ Hnd) with (pn := pn) (rest := [depot_xy I]).
+  2:{ intros n Hn E. rewrite Forall_forall in Hwf. destruct (Hwf n Hn) as ((_ & W) & _). lia. }
+  2:{ intros x Hx. eapply Permutation_in; eassumption. }
   cbn [bind].
   assert (Edxy : depot_xy I = txy dn).
   { unfold depot_xy. rewrite <- Edn. now rewrite (find_nodup t_id _ dn Hnd Hdn). }
